@@ -365,7 +365,7 @@ def register(gen, T):
     def msl_gen_tables():
         """tables and shape facts of the expression / statement / function half of msl/src/generator.rs (semantic half
         of C02); enums (IntrinsicOp, UnaryOp, BinOp, LitKind, ConstKind, LitArm, LitGuard) are those of Gen.HlslGenTables"""
-        from rustsrc import ExtractError, fn_body, first_match, match_arms, enum_variants, normws, lean_str
+        from rustsrc import ExtractError, fn_body, first_match, match_arms, enum_variants, normws, lean_str, matching, split_top
         gm = T.src("msl/src/generator.rs")
         names_rs = T.src("msl/src/names.rs")
         intr_rs = T.src("ir/src/intrinsics.rs")
@@ -394,9 +394,103 @@ def register(gen, T):
                    "operand and returns `generate_invoke_simple(n, …)` when it is one of `s`, otherwise `Form::Binary(b)` -/\n"
                    "inductive MForm where\n  | unary (op : UnaryOp)\n  | binary (op : BinOp)\n"
                    "  | floatCall (name : String) (scalars : List String) (op : BinOp)\n"
+                   "  | floatAssign (scalars : List String) (err : String) (outer inner : IntrinsicOp) (op : BinOp)\n"
                    "  | special\n  | meshMethod\n  | meshHelper\n"
                    "  deriving DecidableEq, Repr, Inhabited\n\n")
         seen = {}
+        place_guard = None
+
+        def parse_place_fn(text, self_name, other_name):
+            """arms of `match expr { … }` of a local `fn(expr: &ir::Expression) -> bool`: rows (ctor, arity, ops allowed at an
+            operator field, fields tested by `self_name`, fields tested by `other_name`, Vec fields tested with
+            `.iter().all(self_name)`); the `_` arm must be `false`"""
+            scrut, arms_text_, _ = first_match(text, r'^expr$')
+            rows, default = [], None
+            for pats_, guard_, result_ in match_arms(arms_text_):
+                if guard_ is not None:
+                    raise ExtractError(f"msl {self_name}: match arm with an `if` guard")
+                rr = normws(result_)
+                if rr.startswith("{") and rr.endswith("}"):
+                    rr = rr[1:-1].strip()
+                if pats_ == ["_"]:
+                    default = rr
+                    continue
+                for p_ in pats_:
+                    pm_ = re.fullmatch(r'ir::Expression::([A-Za-z]+)(?:\((.*)\))?', p_)
+                    if not pm_:
+                        raise ExtractError(f"msl {self_name}: pattern {p_!r}")
+                    binders = [normws(x) for x in split_top(pm_.group(2), ',') if x.strip()] if pm_.group(2) else []
+                    ops = []
+                    for k_, b_ in enumerate(binders):
+                        if '|' in b_ or (b_ in iops):
+                            alts = [normws(x) for x in b_.split('|')]
+                            if k_ != 0 or any(a_ not in iops for a_ in alts):
+                                raise ExtractError(f"msl {self_name}: operator alternatives {b_!r}")
+                            ops = alts
+                        elif not re.fullmatch(r'_|[a-z_]+', b_):
+                            raise ExtractError(f"msl {self_name}: binder {b_!r}")
+                    mine, theirs, allof = [], [], []
+                    if rr != "true":
+                        for part in [x.strip() for x in rr.split("&&")]:
+                            cm = re.fullmatch(r'([a-z_]+)\(([a-z_]+)\)', part)
+                            am = re.fullmatch(r'([a-z_]+)\.iter\(\)\.all\(([a-z_]+)\)', part) or \
+                                re.fullmatch(r'([a-z_]+)\.iter\(\)\.all\(\|slot\| ([a-z_]+)\(&slot\.expr\)\)', part)
+                            if cm and cm.group(2) in binders and cm.group(1) == self_name:
+                                mine.append(binders.index(cm.group(2)))
+                            elif cm and cm.group(2) in binders and other_name and cm.group(1) == other_name:
+                                theirs.append(binders.index(cm.group(2)))
+                            elif am and am.group(1) in binders and am.group(2) == self_name:
+                                allof.append(binders.index(am.group(1)))
+                            else:
+                                raise ExtractError(f"msl {self_name}: arm result {rr!r}")
+                    rows.append((pm_.group(1), len(binders), ops, sorted(mine), sorted(theirs), sorted(allof)))
+            if default != "false":
+                raise ExtractError(f"msl {self_name}: default arm {default!r}")
+            return rows
+
+        def parse_float_assign(r):
+            """the RemainderAssignment arm since fixes 92d66eb + 35faaaa: on a floating-point first operand `a op= b` becomes
+            `a = inner_op(a, b)` through generate_expression, provided `a` is a plain place and `b` is free of writes"""
+            head = ("{ let lhs_ety = exprs[0].get_type(context.module).unwrap(); "
+                    "let lhs_ty = context.module.type_registry.remove_modifier(lhs_ety.0); "
+                    "match context.module.type_registry.extract_scalar(lhs_ty) { ")
+            if not r.startswith(head):
+                return None
+            m1 = re.match(r'((?:Some\(ir::ScalarType::[A-Za-z0-9]+\)(?: \| )?)+) => \{ fn is_plain_place\(expr: &ir::Expression\) -> bool \{', r[len(head):])
+            if not m1:
+                return None
+            ss = re.findall(r'ir::ScalarType::([A-Za-z0-9]+)', m1.group(1))
+            a = len(head) + m1.end() - 1
+            b = matching(r, a)
+            place_text = r[a + 1:b]
+            rest = r[b + 1:].strip()
+            m2 = re.match(r'fn is_plain_index\(expr: &ir::Expression\) -> bool \{', rest)
+            if not m2:
+                return None
+            a2 = m2.end() - 1
+            b2 = matching(rest, a2)
+            index_text = rest[a2 + 1:b2]
+            tail = rest[b2 + 1:].strip()
+            m2b = re.match(r'fn is_free_of_writes\(expr: &ir::Expression\) -> bool \{', tail)
+            if not m2b:
+                return None
+            a3 = m2b.end() - 1
+            b3 = matching(tail, a3)
+            writes_text = tail[a3 + 1:b3]
+            tail = tail[b3 + 1:].strip()
+            m3 = re.fullmatch(
+                r'if !is_plain_place\(&exprs\[0\]\) \|\| !is_free_of_writes\(&exprs\[1\]\) \{ return Err\(GenerateError::([A-Za-z]+)\); \} '
+                r'let value = ir::Expression::IntrinsicOp\(([A-Za-z]+), exprs\.to_vec\(\)\); '
+                r'let assignment = ir::Expression::IntrinsicOp\( ([A-Za-z]+), Vec::from\(\[exprs\[0\]\.clone\(\), value\]\), \); '
+                r'return generate_expression\(&assignment, context\); \} '
+                r'_ => Form::Binary\(ast::BinOp::([A-Za-z0-9_]+)\), \} \}', tail)
+            if not m3:
+                return None
+            err, inner, outer, bop = m3.groups()
+            if any(x not in scalars for x in ss) or inner not in iops or outer not in iops or bop not in bops:
+                raise ExtractError(f"msl generate_intrinsic_op: {tail[:80]!r}")
+            return ss, err, outer, inner, bop, parse_place_fn(place_text, "is_plain_place", "is_plain_index"), \
+                parse_place_fn(index_text, "is_plain_index", None), parse_place_fn(writes_text, "is_free_of_writes", None)
         for pats, guard, result in match_arms(arms_text):
             if guard is not None:
                 raise ExtractError("msl generate_intrinsic_op: guard unsupported")
@@ -421,6 +515,12 @@ def register(gen, T):
                 if any(x not in scalars for x in ss) or mf.group(3) not in bops:
                     raise ExtractError(f"msl generate_intrinsic_op: {r[:60]!r}")
                 val = f".floatCall {lean_str(mf.group(2))} {T.lean_list(lean_str(x) for x in ss)} .{mf.group(3)}"
+            elif parse_float_assign(r):
+                ss, err, outer, inner, bop, prow, irow, wrow = parse_float_assign(r)
+                if place_guard is not None:
+                    raise ExtractError("msl generate_intrinsic_op: two arms with a plain-place test")
+                place_guard = (prow, irow, wrow)
+                val = f".floatAssign {T.lean_list(lean_str(x) for x in ss)} {lean_str(err)} .{outer} .{inner} .{bop}"
             elif r.startswith("Form::Special("):
                 val = ".special"
             elif r.startswith("Form::MeshOutputMethod("):
@@ -437,6 +537,29 @@ def register(gen, T):
         if missing:
             raise ExtractError(f"msl generate_intrinsic_op: no arm for {missing}")
         out.append("def mslOpForm : IntrinsicOp → MForm\n" + "".join(f"  | .{o} => {seen[o]}\n" for o in iops) + "\n")
+        out.append("/-- the variants of `ir::IntrinsicOp` in declaration order (operator payloads of constructor trees are indices into it) -/\n"
+                   "def intrinsicOpNames : List String := " + T.lean_list(lean_str(o) for o in iops) + "\n"
+                   "def intrinsicOpIdx : IntrinsicOp → Nat\n" + "".join(f"  | .{o} => {k}\n" for k, o in enumerate(iops)) + "\n")
+        out.append("/-- one accepting arm of a local test `fn(expr: &ir::Expression) -> bool` of the floating-point `%=` arm: constructor,\n"
+                   "number of fields in the pattern, the operators the pattern allows at field 0 (`[]` = no operator field), the `Box` fields\n"
+                   "handed to the test itself, the `Box` fields handed to the other test (`is_plain_index` from `is_plain_place`), the `Vec`\n"
+                   "fields tested with `.iter().all(test)`; an arm without any of them is `true`; the `_` arm is `false` -/\n"
+                   "structure PlaceRow where\n  ctor : String\n  arity : Nat\n  ops : List String\n  self : List Nat\n  other : List Nat\n"
+                   "  allOf : List Nat\n  deriving DecidableEq, Repr\n\n")
+
+        def rows_text(rows):
+            return "[\n" + ",\n".join(
+                f"  ⟨{lean_str(c)}, {a}, {T.lean_list(lean_str(x) for x in ops)}, [{', '.join(map(str, m_))}], [{', '.join(map(str, t_))}], "
+                f"[{', '.join(map(str, al))}]⟩" for c, a, ops, m_, t_, al in rows) + "\n]"
+        if place_guard is None:
+            place_guard = ([], [], [])
+        out.append("/-- `is_plain_place`: the test on the target of a floating-point `%=`, which is written twice (`a = fmod(a, b)`) -/\n"
+                   "def remAssignPlaceGuard : List PlaceRow := " + rows_text(place_guard[0]) + "\n"
+                   "/-- `is_plain_index`: the test `is_plain_place` applies to the index of a subscript -/\n"
+                   "def remAssignIndexGuard : List PlaceRow := " + rows_text(place_guard[1]) + "\n"
+                   "/-- `is_free_of_writes` (fix 35faaaa): the test on the right operand, which `a = fmod(a, b)` evaluates AFTER the target is\n"
+                   "read while `a %= b` evaluates it before -/\n"
+                   "def remAssignWritesGuard : List PlaceRow := " + rows_text(place_guard[2]) + "\n\n")
         scrut2, arms2, _ = first_match(body, r'^form$', end)
         shape = {}
         for pats, guard, result in match_arms(arms2):
@@ -740,7 +863,7 @@ def register(gen, T):
         non-struct half of Cast with try_implicit_truncate), the Vector / Matrix arms of generate_type_impl, the matrix arms
         of generate_intrinsic_function (mul, transpose) and the rejection of matrix subscripts / matrix swizzles: what
         Model/GenMslVec.lean mirrors.  `SwizzleSlot` is the enum of Gen.HlslVecTables (same ir:: type)."""
-        from rustsrc import ExtractError, fn_body, first_match, match_arms, enum_variants, normws, lean_str
+        from rustsrc import ExtractError, fn_body, first_match, match_arms, enum_variants, normws, lean_str, matching
         gm = T.src("msl/src/generator.rs")
         expr_rs = T.src("ir/src/ir_expressions.rs")
         hdr = T.header("MslVecTables", ["msl/src/generator.rs", "ir/src/ir_expressions.rs"])
@@ -804,11 +927,17 @@ def register(gen, T):
                         'let input_tyl = context.module.type_registry.get_type_layer(input_ty); let to_literal = matches!( unmod_tyl, '
                         'ir::TypeLayer::Scalar(ir::ScalarType::IntLiteral) | ir::TypeLayer::Scalar(ir::ScalarType::FloatLiteral) ); '
                         'let inner = generate_expression(expr, context)?; let to_struct = matches!(unmod_tyl, ir::TypeLayer::Struct(_)); if to_struct {')
-                facts["mslCastHeadAsModelled"] = r.startswith(head) and r.count("generate_expression(") == 1
+                # one generate_expression on the arm's operand; the only other call sits in the struct half (per-element conversion
+                # since fix 5d2f434, pinned by Gen.MslDupSites)
+                si = r.find("if to_struct {")
+                sj = matching(r, si + len("if to_struct ")) if si >= 0 else -1
+                facts["mslCastHeadAsModelled"] = r.startswith(head) and si >= 0 and \
+                    (r[:si] + r[sj + 1:]).count("generate_expression(") == 1 and r[si:sj + 1].count("generate_expression(") == 1
                 tm = re.search(
                     r'\} else if !to_literal \{ fn try_implicit_truncate\( input_tyl: ir::TypeLayer, unmod_tyl: ir::TypeLayer, expr: ast::Expression, \) '
                     r'-> ast::Expression \{ match input_tyl \{ ir::TypeLayer::Vector\(_, in_dim\) => \{ let swizzle = match unmod_tyl \{ '
-                    r'ir::TypeLayer::Scalar\(_\) => "([a-z]+)", ir::TypeLayer::Vector\(_, 2\) if 2 < in_dim => "([a-z]+)", '
+                    r'ir::TypeLayer::Scalar\(_\) \| ir::TypeLayer::Vector\(_, 1\) if 1 < in_dim => \{ "([a-z]+)" \} '
+                    r'ir::TypeLayer::Vector\(_, 2\) if 2 < in_dim => "([a-z]+)", '
                     r'ir::TypeLayer::Vector\(_, 3\) if 3 < in_dim => "([a-z]+)", _ => return expr, \}; ast::Expression::Member\( '
                     r'Box::new\(Located::none\(expr\)\), ast::ScopedIdentifier::trivial\(swizzle\), \) \} _ => expr, \} \} '
                     r'let inner = try_implicit_truncate\(input_tyl, unmod_tyl, inner\); let ty = generate_type_id\(\*type_id, context\)\?; '
@@ -822,8 +951,10 @@ def register(gen, T):
             raise ExtractError("msl generate_expression: Cast arm: try_implicit_truncate not in the expected shape")
         out.append("/-- letter pushed for each channel by the vector half of the Swizzle arm -/\ndef mslSwizzleChar : SwizzleSlot → Char\n" +
                    "".join(f"  | .{s} => '{chars[s]}'\n" for s in slots) + "\n")
-        out.append("/-- `try_implicit_truncate`: the member selected from a vector operand before a cast to a scalar / to a 2-vector from a\n"
-                   "longer one / to a 3-vector from a longer one (Metal has no vector → scalar / vector → shorter vector conversion) -/\n"
+        out.append("/-- `try_implicit_truncate`: the member selected from a vector operand of more than one component before a cast to a\n"
+                   "scalar or to a one-component vector (a scalar on Metal; since fix b6f2da1 — the pinned text has the guard `1 < in_dim`\n"
+                   "on both alternatives) / to a 2-vector from a longer one / to a 3-vector from a longer one (Metal has no vector → scalar /\n"
+                   "vector → shorter vector conversion) -/\n"
                    f"def truncateToScalar : String := {lean_str(trunc['scalar'])}\n"
                    f"def truncateToVec2 : String := {lean_str(trunc['vec2'])}\n"
                    f"def truncateToVec3 : String := {lean_str(trunc['vec3'])}\n\n")
@@ -1060,19 +1191,23 @@ def register(gen, T):
             raise ExtractError("msl Cast arm: `if to_struct {` not found")
         j = matching(cast, i + len("if to_struct "))
         sbody = cast[i + len("if to_struct {"):j]
-        # the aggregate branch: `} else { <count fn> let member_count = …; <guard> if no_side_effects { … } else { return Err(..) } }`
-        k = sbody.find("let member_count = get_member_count(unmod_id, context.module);")
+        # the aggregate branch: `} else { <fn get_member_types> let mut member_types = …; <guard> if no_side_effects { … } else { return Err(..) } }`
+        decl = "let mut member_types = Vec::new(); get_member_types(unmod_id, context.module, &mut member_types);"
+        k = sbody.find(decl)
         if k < 0:
-            raise ExtractError("msl Cast arm: member_count not computed as modelled")
-        rest = sbody[k + len("let member_count = get_member_count(unmod_id, context.module);"):].strip()
-        count_fn = ("fn get_member_count(id: ir::TypeId, module: &ir::Module) -> usize { let id = module.type_registry.remove_modifier(id); "
+            raise ExtractError("msl Cast arm: member_types not computed as modelled")
+        rest = sbody[k + len(decl):].strip()
+        count_fn = ("fn get_member_types( id: ir::TypeId, module: &ir::Module, output: &mut Vec<ir::TypeId>, ) { "
+                    "let id = module.type_registry.remove_modifier(id); "
                     "let tyl = module.type_registry.get_type_layer(id); match tyl { ir::TypeLayer::Array(inner_id, Some(len)) => { "
-                    "get_member_count(inner_id, module) * len as usize } ir::TypeLayer::Array(_, None) => { panic!(\"Can not cast to unbounded array\") } "
-                    "ir::TypeLayer::Struct(id) => { let sd = &module.struct_registry[id.0 as usize]; let mut count = 0; "
-                    "for member in &sd.members { count += get_member_count(member.type_id, module); } count } _ => 1, } }")
-        out.append("/-- `get_member_count`: arrays multiply, structs add their members up, everything else (scalars, vectors, matrices,\n"
-                   "enums, objects) is one element; an unbounded array panics -/\n"
-                   f"def memberCountAsModelled : Bool := {lb(count_fn in sbody)}\n\n")
+                    "for _ in 0..len { get_member_types(inner_id, module, output); } } "
+                    "ir::TypeLayer::Array(_, None) => { panic!(\"Can not cast to unbounded array\") } "
+                    "ir::TypeLayer::Struct(id) => { let sd = &module.struct_registry[id.0 as usize]; "
+                    "for member in &sd.members { get_member_types(member.type_id, module, output); } } _ => output.push(id), } }")
+        out.append("/-- `get_member_types` (since fix 5d2f434; `get_member_count` before): the element types in order — an array repeats its\n"
+                   "element's list `len` times, a struct concatenates its members' lists, everything else (scalars, vectors, matrices, enums,\n"
+                   "objects) is one element of its own unmodified type; an unbounded array panics -/\n"
+                   f"def memberTypesAsModelled : Bool := {lb(count_fn in sbody)}\n\n")
         # optional local helper `fn <name>(expr: &ir::Expression) -> bool { match expr { … } }` before the guard
         helper = None
         hm = re.match(r'fn ([a-z_]+)\(expr: &ir::Expression\) -> bool \{', rest)
@@ -1089,14 +1224,20 @@ def register(gen, T):
         tb = matching(tail, 0)
         then_body = normws(tail[1:tb])
         else_part = normws(tail[tb + 1:])
-        emit_ok = then_body == ("let ty = generate_type_id(*type_id, context)?; let inits = (0..member_count) "
-                                ".map(|_| ast::Initializer::Expression(Located::none(inner.clone()))) .collect(); "
+        emit_ok = then_body == ("let ty = generate_type_id(*type_id, context)?; let mut inits = Vec::with_capacity(member_types.len()); "
+                                "for member_type in member_types { let is_literal = matches!(**expr, ir::Expression::Literal(_)); "
+                                "let element = if member_type == input_ty || is_literal { inner.clone() } else { "
+                                "let cast = ir::Expression::Cast(member_type, expr.clone()); generate_expression(&cast, context)? }; "
+                                "inits.push(ast::Initializer::Expression(Located::none(element))); } "
                                 "ast::Expression::BracedInit(Box::new(ty), inits)")
         else_ok = else_part.startswith("else { return Err(GenerateError::UnsupportedCast); }")
         if not else_ok:
             print("MslDupSites: else part", repr(else_part[:200]), file=sys.stderr)
-        out.append("/-- accepted: `BracedInit(type, [inner; member_count])`, the one generated operand copied once per element -/\n"
-                   f"def structCastRepeatsInnerPerElement : Bool := {lb(emit_ok)}\n"
+        out.append("/-- accepted: `BracedInit(type, clauses)`, one clause per element type in order: the generated operand copied\n"
+                   "(`inner.clone()`) when the element's type is the operand's type or the operand is a literal, otherwise the IR operand\n"
+                   "copied below a cast to the element's type and generated again (`generate_expression(Cast(member_type, expr.clone()))`,\n"
+                   "fix 5d2f434) -/\n"
+                   f"def structCastClausePerElement : Bool := {lb(emit_ok)}\n"
                    "/-- refused: `Err(UnsupportedCast)` -/\n"
                    f"def structCastRefusalIsDiagnostic : Bool := {lb(else_ok)}\n\n")
 
@@ -1133,11 +1274,11 @@ def register(gen, T):
         if helper is None and gexpr.startswith("match **expr {"):
             rows, default = parse_guard_match(gexpr, None)
             or_count_one = False
-            if default == "member_count == 1":
+            if default == "member_types.len() == 1":
                 default, or_count_one = "false", True
         elif helper is not None:
             rows, default = parse_guard_match(helper[1], helper[0])
-            gx = re.fullmatch(re.escape(helper[0]) + r'\(expr\)( \|\| member_count == 1)?', gexpr)
+            gx = re.fullmatch(re.escape(helper[0]) + r'\(expr\)( \|\| member_types\.len\(\) == 1)?', gexpr)
             if not gx:
                 raise ExtractError(f"struct cast guard: {gexpr!r}")
             or_count_one = gx.group(1) is not None
